@@ -97,6 +97,41 @@ theorem parseCond_sim (c : Cfg σ) {pbW pbL : ParseBlockFn σ} (hpb : PBSim pbW 
   repeat' split
   all_goals grind [R.silent, ElsifOut.silent]
 
+theorem parsePlainBlock_sim {pbW pbL : ParseBlockFn σ} (hpb : PBSim pbW pbL) (endName) (ts : List (Tok σ)) (ps : PS) :
+    parsePlainBlock pbL endName ts ps.silent = (parsePlainBlock pbW endName ts ps).silent := by
+  unfold parsePlainBlock PBSim at *
+  repeat' split
+  all_goals grind [R.silent]
+
+theorem whenLoop_sim (c : Cfg σ) {pbW pbL : ParseBlockFn σ} (hpb : PBSim pbW pbL) (endName : String) :
+    ∀ (ts : List (Tok σ)) (skip : Nat) (ps : PS),
+      whenLoop (c.withMode .lax) pbL endName skip ts ps.silent = (whenLoop (c.withMode .warn) pbW endName skip ts ps).silent := by
+  intro ts
+  induction ts with
+  | nil => intro skip ps; simp [whenLoop, R.silent]
+  | cons t rest ih =>
+    intro skip ps
+    cases skip with
+    | succ k =>
+      simp only [whenLoop, ih k ps]
+      cases whenLoop (c.withMode .warn) pbW endName k rest ps
+      simp [R.silent]
+    | zero =>
+      simp only [whenLoop, intoInner_sim]
+      unfold PBSim at hpb
+      repeat' split
+      all_goals grind [R.silent, PS.silent]
+
+theorem parseCase_sim (c : Cfg σ) {pbW pbL : ParseBlockFn σ} (hpb : PBSim pbW pbL) (endName)
+    (ts : List (Tok σ)) (ps : PS) :
+    parseCase (c.withMode .lax) pbL endName ts ps.silent = (parseCase (c.withMode .warn) pbW endName ts ps).silent := by
+  have hw := whenLoop_sim c hpb endName
+  unfold parseCase
+  rw [intoInner_sim]
+  dsimp only
+  repeat' split
+  all_goals grind [R.silent]
+
 theorem parseLeaf_sim (c : Cfg σ) (ts : List (Tok σ)) (ps : PS) :
     parseContent ts ps.silent = (parseContent ts ps).silent ∧
     parseIllegal ts ps.silent = (parseIllegal ts ps).silent ∧
@@ -125,6 +160,9 @@ theorem dispatch_sim (c : Cfg σ) {pbW pbL : ParseBlockFn σ} (hpb : PBSim pbW p
     · rw [parseBlockTag_sim c hpb]; exact getNode_sim c _ _ _
     · rw [parseBlockTag_sim c hpb]; exact getNode_sim c _ _ _
     · rw [parseCond_sim c hpb]; exact getNode_sim c _ _ _
+    · rw [parseCase_sim c hpb]; exact getNode_sim c _ _ _
+    · rw [parseBlockTag_sim c hpb]; exact getNode_sim c _ _ _
+    · rw [parsePlainBlock_sim hpb]; exact getNode_sim c _ _ _
     · rw [h2]; exact getNode_sim c _ _ _
   · rw [h1]; exact getNode_sim c _ _ _
 
@@ -195,11 +233,23 @@ theorem iterate_sim (fW fL : RS σ → RS σ × Sig) (hf : ∀ rs, fL rs.silent 
     cases hx : fW rs with
     | mk rs' s => cases s <;> simp [sil, ih]
 
+theorem repeatN_sim (fW fL : RS σ → RS σ × Sig) (hf : ∀ rs, fL rs.silent = sil (fW rs)) :
+    ∀ n rs, repeatN fL n rs.silent = sil (repeatN fW n rs) := by
+  intro n
+  induction n with
+  | zero => intro rs; simp [repeatN, sil]
+  | succ n ih =>
+    intro rs
+    simp only [repeatN, hf]
+    cases hx : fW rs with
+    | mk rs' s => cases s <;> simp [sil, ih]
+
 theorem renderNode_sim (c : Cfg σ) {rtW rtL : RenderTemplateFn σ} (hrt : RTSim rtW rtL) :
     (∀ n : Node σ, ∀ rs, renderNode (c.withMode .lax) rtL n rs.silent = sil (renderNode (c.withMode .warn) rtW n rs)) ∧
     (∀ ns : List (Node σ),
       (∀ rs, renderList (c.withMode .lax) rtL ns rs.silent = sil (renderList (c.withMode .warn) rtW ns rs)) ∧
-      (∀ rs, renderAlts (c.withMode .lax) rtL ns rs.silent = sil (renderAlts (c.withMode .warn) rtW ns rs))) := by
+      (∀ rs, renderAlts (c.withMode .lax) rtL ns rs.silent = sil (renderAlts (c.withMode .warn) rtW ns rs)) ∧
+      (∀ d rs, renderCase (c.withMode .lax) rtL ns d rs.silent = sil (renderCase (c.withMode .warn) rtW ns d rs))) := by
   have hpt := fun ts log => parseTemplate_sim c ts log
   have hev := @evalExpr_sim σ
   unfold RTSim at hrt
@@ -261,7 +311,7 @@ theorem renderNode_sim (c : Cfg σ) {rtW rtL : RenderTemplateFn σ} (hrt : RTSim
         simp only [sil]
         split
         · exact h1.1 rs'
-        · rw [h2.2 rs']
+        · rw [h2.2.1 rs']
           cases hy : renderAlts (c.withMode .warn) rtW alts rs' with
           | mk rs'' o =>
             cases o with
@@ -296,15 +346,32 @@ theorem renderNode_sim (c : Cfg σ) {rtW rtL : RenderTemplateFn σ} (hrt : RTSim
     rw [this]
     cases hy : renderList (c.withMode .warn) rtW body { st := rs.st, out := "", log := rs.log } with
     | mk rs'' s => cases s <;> simp [sil, RS.silent]
-  case nil => exact ⟨fun rs => by simp [renderList, sil], fun rs => by simp [renderAlts, sil]⟩
+  case case_ => intro e blocks h1 rs; simp only [renderNode]; exact h1.2.2 true rs
+  case whenBlock =>
+    intro e body h1 rs; simp only [renderNode, hev]
+    cases hx : evalExpr e rs with
+    | mk rs' r =>
+      cases r with
+      | error err => simp [sil]
+      | ok v => simp only [sil]; exact repeatN_sim _ _ h1.1 v.num rs'
+  case elseBlock => intro body h1 rs; simp only [renderNode]; exact h1.1 rs
+  case scoped_ =>
+    intro e body h1 rs; simp only [renderNode, hev]
+    cases hx : evalExpr e rs with
+    | mk rs' r =>
+      cases r with
+      | error err => simp [sil]
+      | ok v => simp only [sil]; exact h1.1 rs'
+  case block => intro body h1 rs; simp only [renderNode]; exact h1.1 rs
+  case nil => exact ⟨fun rs => by simp [renderList, sil], fun rs => by simp [renderAlts, sil], fun d rs => by simp [renderCase, sil]⟩
   case cons =>
     intro n ns hn hns
-    refine ⟨?_, ?_⟩
+    refine ⟨?_, ?_, ?_⟩
     · intro rs; simp only [renderList, hn]
       cases hy : renderNode (c.withMode .warn) rtW n rs with
       | mk rs' s => cases s <;> simp [sil, hns.1]
     · intro rs
-      cases n <;> simp only [renderAlts] <;> (try exact hns.2 rs)
+      cases n <;> simp only [renderAlts] <;> (try exact hns.2.1 rs)
       rename_i e body
       have hb := hn
       simp only [renderNode] at hb
@@ -320,7 +387,34 @@ theorem renderNode_sim (c : Cfg σ) {rtW rtL : RenderTemplateFn σ} (hrt : RTSim
           · rename_i hv
             simp only [hv, if_true] at hb'
             rw [hb']
-          · exact hns.2 rs'
+          · exact hns.2.1 rs'
+
+    · intro d rs
+      cases n <;> simp only [renderCase] <;> (try exact hns.2.2 d rs)
+      · rename_i e body
+        have hb := hn
+        simp only [renderNode] at hb
+        simp only [hev]
+        cases hx : evalExpr e rs with
+        | mk rs' r =>
+          cases r with
+          | error err => simp [sil]
+          | ok v =>
+            have hb' := hb rs
+            simp only [hev, hx, sil] at hb' ⊢
+            split
+            · rw [hb']
+              cases hy : repeatN (renderList (c.withMode .warn) rtW body) v.num rs' with
+              | mk rs'' s => cases s <;> simp [hns.2.2, sil]
+            · exact hns.2.2 d rs'
+      · rename_i body
+        have hb := hn
+        simp only [renderNode] at hb
+        split
+        · rw [hb rs]
+          cases hy : renderList (c.withMode .warn) rtW body rs with
+          | mk rs' s => cases s <;> simp [hns.2.2, sil]
+        · exact hns.2.2 d rs
 
 theorem templateLoop_sim (c : Cfg σ) {rnW rnL : Node σ → RS σ → RS σ × Sig}
     (hrn : ∀ n rs, rnL n rs.silent = sil (rnW n rs)) (p b : Bool) :
